@@ -206,8 +206,11 @@ fn gen_padding(s: &mut Src<'_>, t: &mut Tree, blobs: &[Blob]) -> Vec<Tid> {
 /// re-serialize with back-references (the builders accept either form)
 fn backref_form(plain: &[u8]) -> Vec<u8> {
     let mut a = Allocator::new();
-    let n = node_from_bytes(&mut a, plain).expect("harness: plain serialization decodes");
-    node_to_bytes_backrefs(&a, n).expect("harness: node_to_bytes_backrefs")
+    match node_from_bytes(&mut a, plain) {
+        Ok(n) => node_to_bytes_backrefs(&a, n).expect("harness: node_to_bytes_backrefs"),
+        // the deliberately undecodable reveals stay as they are
+        Err(_) => plain.to_vec(),
+    }
 }
 
 struct RawSpend {
@@ -525,6 +528,8 @@ pub struct Attempt {
     pub mode: Mode,
     pub truthful: bool,
     pub outcome: Outcome,
+    /// cost() of the builder under test right before the call
+    pub before: u64,
 }
 
 fn batch_refs<'a>(pool: &'a [PBundle], batch: &[usize]) -> Vec<&'a SpendBundle> {
@@ -825,6 +830,7 @@ fn run_history<B: Bld>(bytes: &[u8], run: &mut Run<'_>) -> CaseResult {
                 }
                 if after != before {
                     let sig = if name == "compressed" && !serialized_once {
+                        run.label("initial-estimate:first-undo-raises-cost()");
                         format!("C10:{name}:initial-estimate-omits-empty-generator-bytes")
                     } else {
                         format!("C10:{name}:rejected-add-changed-cost-estimate")
@@ -858,6 +864,7 @@ fn run_history<B: Bld>(bytes: &[u8], run: &mut Run<'_>) -> CaseResult {
             mode,
             truthful,
             outcome,
+            before,
         });
     }
     run.ctx.ran_dry(s.ran_dry());
@@ -939,6 +946,7 @@ fn run_history<B: Bld>(bytes: &[u8], run: &mut Run<'_>) -> CaseResult {
     }
     if last_cost < cost {
         let sig = if name == "compressed" && !serialized_once {
+            run.label("initial-estimate:cost()-below-final-cost-of-empty-block");
             format!("C10:{name}:initial-estimate-omits-empty-generator-bytes")
         } else {
             format!("C10:{name}:estimate-below-final-cost")
@@ -993,42 +1001,78 @@ fn run_history<B: Bld>(bytes: &[u8], run: &mut Run<'_>) -> CaseResult {
     let rejected_any = attempts.iter().any(|a| a.outcome != Outcome::Accepted);
     if rejected_any {
         let mut fresh = B::create(c);
+        let mut comparable = true;
         for (k, at) in accepted.iter().enumerate() {
+            let fresh_before = fresh.cost();
+            let same_estimate = fresh_before == at.before;
+            if !same_estimate {
+                // The interned estimate is a sum over the accepted spends and
+                // cannot legitimately depend on rejected attempts. The
+                // compressed builder's byte count may (the serializer keeps
+                // the rejected trees cached and later picks other
+                // back-references), and its initial-estimate finding shows up
+                // here too: measured, not asserted.
+                if name == "interned" {
+                    return fail(
+                        format!("C10:{name}:rejected-attempts-changed-later-estimate"),
+                        format!("before accepted attempt #{k}: cost() = {} with the rejected attempts in between, {fresh_before} in a builder that saw only the accepted attempts", at.before),
+                    );
+                }
+                run.label("fresh-builder:compressed-estimate-differs-after-rejects");
+            }
             let r = fresh.add(&batch_refs(pool, &at.batch), at.declared, c);
             if !matches!(r, Ok((true, _))) {
+                if same_estimate {
+                    return fail(
+                        format!("C10:{name}:rejected-attempts-changed-later-acceptance"),
+                        format!(
+                            "accepted attempt #{k} (batch {:?}, declared {}) is not accepted by a builder that saw only the accepted attempts (same cost() = {fresh_before} before the call): {r:?}",
+                            at.batch, at.declared
+                        ),
+                    );
+                }
+                run.label("fresh-builder:acceptance-diverged-with-different-estimate");
+                comparable = false;
+                break;
+            }
+        }
+        if comparable {
+            let fresh_last = fresh.cost();
+            let (g2, s2, c2) = match catch_unwind(AssertUnwindSafe(|| fresh.finish(c))) {
+                Ok(Ok(x)) => x,
+                Ok(Err(e)) => return fail(format!("C10:{name}:finalize-error"), format!("fresh builder: finalize returned Err({e})")),
+                Err(p) => {
+                    let t = panic_text(p.as_ref());
+                    return fail(format!("C10:{name}:finalize-panics:{t}"), format!("fresh builder (accepted attempts only): finalize panicked ({t})"));
+                }
+            };
+            let mut d2 = match decode_spends(&g2) {
+                Ok(d) => d,
+                Err(e) => return fail(format!("C10:{name}:generator-not-a-quoted-spend-list"), format!("fresh builder: {e}")),
+            };
+            d2.sort();
+            if d2 != dec_sorted || s2 != signature {
                 return fail(
-                    format!("C10:{name}:rejected-attempts-changed-later-acceptance"),
-                    format!("accepted attempt #{k} (batch {:?}, declared {}) is not accepted by a builder that saw only the accepted attempts: {r:?}", at.batch, at.declared),
+                    format!("C10:{name}:rejected-attempts-changed-output"),
+                    format!(
+                        "a builder fed only the accepted attempts emits {} spends / the builder with the rejected attempts in between {} spends; signatures equal: {}",
+                        d2.len(),
+                        dec_sorted.len(),
+                        s2 == signature
+                    ),
                 );
             }
+            run.label("fresh-builder:same-spends-and-signature");
+            run.label(if g2 == generator {
+                "fresh-builder:generator-bytes-equal".to_string()
+            } else if g2.len() == generator.len() {
+                format!("fresh-builder:{name}:generator-bytes-differ-same-length")
+            } else {
+                format!("fresh-builder:{name}:generator-length-differs")
+            });
+            run.label(if c2 == cost { "fresh-builder:returned-cost-equal".to_string() } else { format!("fresh-builder:{name}:returned-cost-differs") });
+            run.label(if fresh_last == last_cost { "fresh-builder:last-estimate-equal".to_string() } else { format!("fresh-builder:{name}:last-estimate-differs") });
         }
-        let fresh_last = fresh.cost();
-        let (g2, s2, c2) = match catch_unwind(AssertUnwindSafe(|| fresh.finish(c))) {
-            Ok(Ok(x)) => x,
-            Ok(Err(e)) => return fail(format!("C10:{name}:finalize-error"), format!("fresh builder: finalize returned Err({e})")),
-            Err(p) => {
-                let t = panic_text(p.as_ref());
-                return fail(format!("C10:{name}:finalize-panics:{t}"), format!("fresh builder (accepted attempts only): finalize panicked ({t})"));
-            }
-        };
-        let mut d2 = match decode_spends(&g2) {
-            Ok(d) => d,
-            Err(e) => return fail(format!("C10:{name}:generator-not-a-quoted-spend-list"), format!("fresh builder: {e}")),
-        };
-        d2.sort();
-        if d2 != dec_sorted || s2 != signature {
-            return fail(
-                format!("C10:{name}:rejected-attempts-changed-output"),
-                format!(
-                    "a builder fed only the accepted attempts emits {} spends / the builder with the rejected attempts in between {} spends; signatures equal: {}",
-                    d2.len(),
-                    dec_sorted.len(),
-                    s2 == signature
-                ),
-            );
-        }
-        run.label(if g2 == generator { "fresh-builder:generator-bytes-equal" } else { "fresh-builder:generator-bytes-differ" });
-        run.label(if c2 == cost && fresh_last == last_cost { "fresh-builder:costs-equal" } else { "fresh-builder:costs-differ" });
     }
 
     // ---- classification
@@ -1083,6 +1127,7 @@ const REQUIRED: &[&str] = &[
     "block:empty",
     "pool:sparse",
     "fresh-builder:generator-bytes-equal",
+    "fresh-builder:same-spends-and-signature",
 ];
 
 pub fn property() -> Property {
@@ -1100,7 +1145,7 @@ pub fn property() -> Property {
             SubCheck {
                 name: "compressed-builder",
                 about: "BlockBuilder: histories of add_spend_bundles + finalize against the accepted-attempts model",
-                source: Source::Random { len: 4096, quick: 60_000, thorough: 1_200_000 },
+                source: Source::Random { len: 4096, quick: 80_000, thorough: 1_600_000 },
                 run: case_compressed,
                 inflight: true,
                 min_nontrivial: 5_000,
@@ -1109,7 +1154,9 @@ pub fn property() -> Property {
             SubCheck {
                 name: "interned-builder",
                 about: "InternedBlockBuilder: histories of add_spend_bundles + finalize against the accepted-attempts model",
-                source: Source::Random { len: 4096, quick: 60_000, thorough: 1_200_000 },
+                // ≈ 8× the CPU time per history of the compressed builder (one scratch
+                // Allocator per spend per call inside the builder)
+                source: Source::Random { len: 4096, quick: 30_000, thorough: 600_000 },
                 run: case_interned,
                 inflight: true,
                 min_nontrivial: 5_000,
